@@ -343,5 +343,14 @@ Definition never_blocked (i : nat) (s : state) : bool :=
                end
   end.
 
+(* no process failed: a process that has finished logged all its n reads (an aborted process,
+   i.e. an I/O error propagated by `?`, stops early) *)
+Definition completes (n : nat) (s : state) : bool :=
+  forallb (fun pr => match p_code pr with [] => Nat.eqb (length (p_log pr)) n | _ => true end) (snd s).
+
+(* the store used although its lock file could not be created (LockResult::Unavailable) *)
+Definition strip_locks (code : list instr) : list instr :=
+  filter (fun i => match i with Lock _ | TryLock _ | Unlock _ => false | _ => true end) code.
+
 Definition no_blocking_lock (code : list instr) : bool :=
   forallb (fun i => match i with Lock _ => false | _ => true end) code.
